@@ -8763,6 +8763,14 @@ func (p *parser) findSymbol(loc logger.Loc, name string) findSymbolResult {
 	// it or we risk changing the behavior of the code.
 	if isInsideWithScope {
 		p.symbols[ref.InnerIndex].Flags |= ast.MustNotBeRenamed
+
+		// This symbol may have been merged into another symbol (e.g. a "var" in a
+		// nested block is merged into the hoisted symbol of the function scope).
+		// The renamer only looks at the symbol at the end of the link chain, so
+		// that symbol must not be renamed either.
+		for link := p.symbols[ref.InnerIndex].Link; link != ast.InvalidRef; link = p.symbols[link.InnerIndex].Link {
+			p.symbols[link.InnerIndex].Flags |= ast.MustNotBeRenamed
+		}
 	}
 
 	// Track how many times we've referenced this symbol
